@@ -37,6 +37,7 @@ def setup(ctx):
     ]
     ctx.require("monitor", "compared_to_baseline", 2000)
     ctx.require("monitor", "reads_during_handler", 200)
+    ctx.require("monitor", "l2_request_then_close_notify", 20)
     ctx.require("monitor", "l2_compared", 40)
 
 
@@ -293,6 +294,11 @@ def run_l2(ctx):
             for _ in range(nvar):
                 variants.append(("cipher-cuts", rng.choice([1, 2, 3, 5, 7, 13, 64]), rng.random() < 0.5))
             variants.append(("plain-pieces", None, False))
+            # the client shuts its side down right after the request (one read carries the request and the
+            # close_notify): what the request DOES must not depend on that (the response to such a client is not
+            # compared - asyncio's TLS layer cannot answer a peer that has already sent close_notify)
+            variants.append(("then-close-notify", None, False))
+            variants.append(("then-close-notify", 7, False))
             for _ in range(ctx.pick(3, 12)):
                 variants.append(("multi-record-one-read", None, False))
                 variants.append(("multi-record-coalesced", None, True))
@@ -319,15 +325,18 @@ def run_l2(ctx):
                     if not coalesce:
                         if name == "multi-record-one-read":
                             bench.client_send_records(pieces)
+                        elif name == "then-close-notify":
+                            bench.client_send_then_close_notify(data)
+                            ctx.count("monitor", "l2_request_then_close_notify")
                         elif name == "plain-pieces":
                             for ch in bytesgen.split(data, bytesgen.random_cuts(rng, len(data), 3)):
                                 bench.client_send(ch)
                                 loop.advance(0.5)
                         else:
                             bench.client_send(data)
-                    bench.finish()
+                    bench.finish(peer_closes_after_server=(name != "then-close-notify"))
                     obs = {
-                        "stream": bytes(bench.client_plain),
+                        "stream": bytes(bench.client_plain) if name != "then-close-notify" or base is None else base["stream"],
                         "handler_calls": len(h.calls),
                         "n_upload": len(up.calls),
                         "upload_calls": [{kk: c[kk] for kk in ("raw_url", "size", "mime", "token", "content", "path")} for c in up.calls],
